@@ -96,7 +96,7 @@ def build(rng):
         except Exception:
             return "base", s1, g, monotone
     kinds = INTEGRABLE if mode == "integrate" else KINDS
-    o = gen.random_opts(rng, kinds=kinds, monotone=monotone)
+    o = gen.random_opts(rng, kinds=kinds, monotone=monotone, heads=rng.random() < 0.3)
     sc, g = gen.gen_circuit(rng, **o)
     scope = sorted(sc.scope._set)
     if mode == "integrate":
